@@ -61,6 +61,22 @@ Fixpoint consumed_ok (fuel : nat) (code : bytes) (rest_len : N) : bool :=
          | _ => false
          end
   end.
+(* the same walk, telling whether a MOVE or an INCMP was passed before the walk failed: both append
+   the target node's code AFTER the remaining code, so a truncated tail behind them is completed by
+   the first bytes of that code and executed as whatever instruction results (K-C15-glue) *)
+Fixpoint consumed_glued (fuel : nat) (code : bytes) (rest_len : N) (moved : bool) : bool :=
+  match fuel with
+  | O => false
+  | S f =>
+    if len code <=? rest_len then false
+    else match decode_one code with
+         | Ok (INoop, _) => false
+         | Ok (ICatch _ _ _, _) | Ok (ICroak _ _, _) => false
+         | Ok (IMove _, r) | Ok (IInCmp _ _, r) => consumed_glued f r rest_len true
+         | Ok (_, r) => consumed_glued f r rest_len moved
+         | _ => moved
+         end
+  end.
 Fixpoint is_suffix_b (s l : bytes) : bool :=
   bytes_eqb s l || match l with [] => false | _ :: l' => is_suffix_b s l' end.
 (* instructions that replace the code buffer (CATCH, CROAK) make the result no suffix: not judged.
@@ -81,9 +97,14 @@ Definition vr_c15_gen (lf : bool) (c : vrcase) : bool :=
   end.
 Definition vr_c15_ok (c : vrcase) : bool := vr_c15_gen false c.
 (* class 1 = K-C15-loadfail: the only failure is the swallowed decoding error of a run that started
-   with LOADFAIL set *)
+   with LOADFAIL set; class 2 = K-C15-glue: the malformed tail lies behind a MOVE or INCMP of the same
+   buffer *)
 Definition vr_c15_class (c : vrcase) : option N :=
-  if vr_c15_gen true c then None else if vr_c15_gen false c then Some 1 else Some 0.
+  if vr_c15_gen true c then None else if vr_c15_gen false c then Some 1
+  else match vr_stat c with
+       | OSOk => if consumed_glued (S (List.length (vr_code c))) (vr_code c) (len (vr_rest c)) false then Some 2 else Some 0
+       | _ => Some 0
+       end.
 
 Definition vmrun_mismatches (cs : list vrcase) : list N := bad_indices vr_corr_ok cs.
 Fixpoint vr_classify (i : N) (cs : list vrcase) : list (N * N) :=
